@@ -186,7 +186,7 @@ func build(ch *core.Chooser, alpha []string, maxLen int) string {
 }
 
 func run(c *core.Ctx) {
-	maxLen := c.Pick(4, 5)
+	maxLen := c.Pick(4, 6)
 	invLen := c.Pick(2, 3)
 	pairLen := 2
 	c.Bound("alphabet", alphabet)
